@@ -284,7 +284,7 @@ Qed.
 
 Lemma source_name_at : forall p o lv ti fnm idc ex id rest,
   At p (src id ++ rest) -> ident_okb id = true -> no_dollar (id ++ rest) -> L <= INT_MAX ->
-  dd_source_name s 0 (mkst p L o 0 lv 0 ti fnm idc ex) =
+  dd_source_name true s 0 (mkst p L o 0 lv 0 ti fnm idc ex) =
   R 0 (mkst (p + Z.of_nat (List.length (src id))) L (add_out (sep_out o fnm) id) 0 lv 0 ti false idc ex).
 Proof.
   intros p o lv ti fnm idc ex id rest H Hid Hnd HL.
@@ -307,8 +307,7 @@ Proof.
   pose proof (At_le _ _ H) as Hp0r.
   rewrite bind_eof. stsimpl. rwf (p0 >=? L).
   rewrite bind_gets, bind_gets. stsimpl. cbn [Z.eqb].
-  rwf (p0 + n >? INT_MAX).
-  rwf (p0 + n >? L).
+  cbn [negb andb]. rwf (n >? L - p0).
   rewrite bind_gets, bind_getb, bind_gets. stsimpl. cbn [Z.eqb negb andb orb].
   assert (Hal : forall o', append_len s 0 p0 n (mkst p0 L o' 0 lv 0 ti false idc ex)
                            = R 0 (mkst p0 L (add_out o' id) 0 lv 0 ti false idc ex)).
@@ -365,7 +364,7 @@ Proof. intros. apply At_app. assumption. Qed.
 Lemma unq_src : forall k p o lv fnm id rest,
   At p (src id ++ rest) -> ident_okb id = true -> no_dollar (id ++ rest) -> L <= INT_MAX ->
   hd0 rest <> 66 ->
-  run s 0 (S k) FUnqualifiedName (NS p o lv fnm) =
+  run true s 0 (S k) FUnqualifiedName (NS p o lv fnm) =
   R 0 (NS (p + Z.of_nat (List.length (src id))) (add_out (sep_out o fnm) id) lv false).
 Proof.
   intros k p o lv fnm id rest H Hid Hnd HL HB.
@@ -404,8 +403,8 @@ Proof. intros a b H. apply Forall_app in H. tauto. Qed.
 Lemma nested_comps : forall comps k p o lv fnm rest,
   At p (srcs comps ++ rest) -> Forall (fun id => ident_okb id = true) comps ->
   no_dollar (srcs comps ++ rest) -> L <= INT_MAX -> hd0 rest <> 66 ->
-  run s 0 (List.length comps + S k) (LNested 0) (NS p o lv fnm) =
-  run s 0 (S k) (LNested 0)
+  run true s 0 (List.length comps + S k) (LNested 0) (NS p o lv fnm) =
+  run true s 0 (S k) (LNested 0)
     (NS (p + Z.of_nat (List.length (srcs comps))) (out_after o fnm comps) lv (fnm_after fnm comps)).
 Proof.
   induction comps as [| id cs IH]; intros k p o lv fnm rest H Hok Hnd HL HB.
@@ -449,7 +448,7 @@ Qed.
 (* ---- the three ways a nested name ends *)
 Lemma nested_end_plain : forall k p o lv fnm rest,
   At p (69 :: rest) ->
-  run s 0 (S k) (LNested 0) (NS p o lv fnm) = R 0 (NS p o lv fnm).
+  run true s 0 (S k) (LNested 0) (NS p o lv fnm) = R 0 (NS p o lv fnm).
 Proof.
   intros k p o lv fnm rest H. cbn [run body]. unfold nested_loop, NS.
   erewrite bind_R; [| apply (curr_at _ (69 :: rest)); [ exact H | reflexivity ] ].
@@ -465,7 +464,7 @@ Definition last_segment (o : list Z) : list Z :=
 
 Lemma ctor_dtor_at : forall k p x lv c kd rest,
   At p (c :: kd :: 69 :: rest) -> (c = 67 \/ c = 68) -> isdigit kd = true ->
-  run s 0 (S k) FCtorDtor (NS p (Some x) lv false) =
+  run true s 0 (S k) FCtorDtor (NS p (Some x) lv false) =
   R 0 (NS (p + 2) (Some (x ++ (if c =? 67 then str "::" else str "::~") ++ last_segment x)) lv false).
 Proof.
   intros k p x lv c kd rest H Hc Hk. cbn [run body]. unfold dd_ctor_dtor_name, NS.
@@ -486,11 +485,11 @@ Qed.
 
 Lemma nested_end_ctor : forall k p x lv c kd rest,
   At p (c :: kd :: 69 :: rest) -> (c = 67 \/ c = 68) -> isdigit kd = true ->
-  run s 0 (S (S k)) (LNested 0) (NS p (Some x) lv false) =
+  run true s 0 (S (S k)) (LNested 0) (NS p (Some x) lv false) =
   R 0 (NS (p + 2) (Some (x ++ (if c =? 67 then str "::" else str "::~") ++ last_segment x)) lv false).
 Proof.
   intros k p x lv c kd rest H Hc Hk.
-  change (run s 0 (S (S k)) (LNested 0)) with (nested_loop s 0 (run s 0 (S k)) 0).
+  change (run true s 0 (S (S k)) (LNested 0)) with (nested_loop true s 0 (run true s 0 (S k)) 0).
   unfold nested_loop. unfold NS at 1.
   erewrite bind_R; [| apply (curr_at _ (c :: kd :: 69 :: rest)); [ exact H | reflexivity ] ].
   rewrite bind_eof. stsimpl. pose proof (At_lt _ _ _ H). rwf (p >=? L). cbn [hd0]. chs. cbn [Z.eqb].
@@ -510,7 +509,7 @@ Definition op_okb (c0 c1 : Z) : bool :=
 
 Lemma operator_at : forall k p x lv c0 c1 nm rest,
   At p (c0 :: c1 :: 69 :: rest) -> find_op ops c0 c1 = Some nm -> op_okb c0 c1 = true ->
-  run s 0 (S k) FOperatorName (NS p (Some x) lv false) =
+  run true s 0 (S k) FOperatorName (NS p (Some x) lv false) =
   R 0 (NS (p + 2) (Some (((x ++ str "::") ++ str "operator") ++ nm)) lv false).
 Proof.
   intros k p x lv c0 c1 nm rest H Hop Hok. cbn [run body]. unfold dd_operator_name, NS.
@@ -532,11 +531,11 @@ Qed.
 
 Lemma nested_end_op : forall k p x lv c0 c1 nm rest,
   At p (c0 :: c1 :: 69 :: rest) -> find_op ops c0 c1 = Some nm -> op_okb c0 c1 = true ->
-  run s 0 (S (S (S k))) (LNested 0) (NS p (Some x) lv false) =
+  run true s 0 (S (S (S k))) (LNested 0) (NS p (Some x) lv false) =
   R 0 (NS (p + 2) (Some (((x ++ str "::") ++ str "operator") ++ nm)) lv false).
 Proof.
   intros k p x lv c0 c1 nm rest H Hop Hok.
-  change (run s 0 (S (S (S k))) (LNested 0)) with (nested_loop s 0 (run s 0 (S (S k))) 0).
+  change (run true s 0 (S (S (S k))) (LNested 0)) with (nested_loop true s 0 (run true s 0 (S (S k))) 0).
   assert (Hlow : islower c0 = true).
   { unfold op_okb in Hok. apply andb_prop in Hok. destruct Hok as [Hok _].
     apply andb_prop in Hok. tauto. }
@@ -548,9 +547,9 @@ Proof.
   erewrite bind_R; [| apply (peek1_at _ c0 (c1 :: 69 :: rest)); [ exact H | reflexivity ] ].
   rwf (c0 =? 68). rwf (c0 =? 67). cbn [andb orb]. rwf (c0 =? 85). rewrite Hlow. cbn [orb].
   (* dd_unqualified_name on an operator *)
-  assert (Hu : run s 0 (S (S k)) FUnqualifiedName (NS p (Some x) lv false) =
+  assert (Hu : run true s 0 (S (S k)) FUnqualifiedName (NS p (Some x) lv false) =
                R 0 (NS (p + 2) (Some (((x ++ str "::") ++ str "operator") ++ nm)) lv false)).
-  { change (run s 0 (S (S k)) FUnqualifiedName) with (dd_unqualified_name s 0 (run s 0 (S k))).
+  { change (run true s 0 (S (S k)) FUnqualifiedName) with (dd_unqualified_name true s 0 (run true s 0 (S k))).
     unfold dd_unqualified_name. unfold NS at 1.
     erewrite bind_R; [| apply (curr_at _ (c0 :: c1 :: 69 :: rest)); [ exact H | reflexivity ] ].
     erewrite bind_R; [| apply (peek1_at _ c0 (c1 :: 69 :: rest)); [ exact H | reflexivity ] ].
@@ -584,15 +583,15 @@ Qed.
 
 Lemma type_builtin : forall k p o lv fnm c rest,
   At p (c :: rest) -> is_builtin c = true ->
-  run s 0 (S (S k)) FType (NS p o lv fnm) = R 0 (NS (p + 1) o lv fnm).
+  run true s 0 (S (S k)) FType (NS p o lv fnm) = R 0 (NS (p + 1) o lv fnm).
 Proof.
   intros k p o lv fnm c rest H Hb.
   destruct (builtin_facts c Hb) as [F1 [F2 [F3 [F4 [F5 [F6 [F7 [F8 [F9 [F10 [F11 [F12 [F13 F14]]]]]]]]]]]]].
-  change (run s 0 (S (S k)) FType) with (dd_type (run s 0 (S k))).
+  change (run true s 0 (S (S k)) FType) with (dd_type (run true s 0 (S k))).
   unfold dd_type, NS. pose proof (At_lt _ _ _ H).
   rewrite bind_eof. stsimpl. rwf (p >=? L). cbn [Z.eqb].
   unfold inc_typ, inc_level. rewrite !bind_modify. stsimpl.
-  assert (Hl : run s 0 (S k) (LType (-1)) (mkst p L o (0 + 1) (lv + 1) 0 false fnm false false)
+  assert (Hl : run true s 0 (S k) (LType (-1)) (mkst p L o (0 + 1) (lv + 1) 0 false fnm false false)
                = R 0 (mkst (p + 1) L o (0 + 1) (lv + 1) 0 false fnm false false)).
   { cbn [run body]. unfold type_loop.
     rewrite bind_eof. stsimpl. rwf (p >=? L). cbn [Z.eqb].
@@ -608,7 +607,7 @@ Qed.
 
 Lemma enc_types_builtin : forall params k p x,
   At p params -> forallb is_builtin params = true ->
-  run s 0 (List.length params + S (S (S k))) LEncTypes (NS p (Some x) 1 false) =
+  run true s 0 (List.length params + S (S (S k))) LEncTypes (NS p (Some x) 1 false) =
   R 0 (NS (p + Z.of_nat (List.length params)) (Some x) 1 false).
 Proof.
   induction params as [| c ps IH]; intros k p x H Hb.
@@ -655,7 +654,7 @@ Definition last_out (x : list Z) (l : lastk) : list Z :=
 
 Lemma nested_end : forall l k p x lv rest,
   At p (last_enc l ++ 69 :: rest) -> last_okb l = true ->
-  run s 0 (S (S (S k))) (LNested 0) (NS p (Some x) lv false) =
+  run true s 0 (S (S (S k))) (LNested 0) (NS p (Some x) lv false) =
   R 0 (NS (p + Z.of_nat (List.length (last_enc l))) (Some (last_out x l)) lv false).
 Proof.
   intros l k p x lv rest H Hok. destruct l as [| kd | kd | c0 c1]; cbn [last_enc app List.length last_out] in *.
@@ -684,14 +683,14 @@ Lemma nested_name_at : forall a cs l k p lv rest,
   At p (78 :: srcs (a :: cs) ++ last_enc l ++ 69 :: rest) ->
   Forall (fun id => ident_okb id = true) (a :: cs) -> last_okb l = true ->
   no_dollar (srcs (a :: cs) ++ last_enc l ++ 69 :: rest) -> L <= INT_MAX ->
-  run s 0 (S (List.length (a :: cs) + S (S (S k)))) FNestedName (NS p None lv true) =
+  run true s 0 (S (List.length (a :: cs) + S (S (S k)))) FNestedName (NS p None lv true) =
   R 0 (NS (p + 1 + Z.of_nat (List.length (srcs (a :: cs))) + Z.of_nat (List.length (last_enc l)) + 1)
           (Some (last_out (join_sep (a :: cs)) l)) lv false).
 Proof.
   intros a cs l k p lv rest H Hok Hl Hnd HL.
   set (comps := a :: cs) in *.
-  change (run s 0 (S (List.length comps + S (S (S k)))) FNestedName)
-    with (dd_nested_name s 0 (run s 0 (List.length comps + S (S (S k))))).
+  change (run true s 0 (S (List.length comps + S (S (S k)))) FNestedName)
+    with (dd_nested_name s 0 (run true s 0 (List.length comps + S (S (S k))))).
   unfold dd_nested_name. unfold NS at 1. pose proof (At_lt _ _ _ H).
   rewrite bind_eof. stsimpl. rwf (p >=? L). cbn [Z.eqb].
   unfold expect at 1. unfold consume.
@@ -728,7 +727,7 @@ Lemma encoding_at : forall a cs l params F,
   forallb is_builtin params = true ->
   no_dollar (srcs (a :: cs) ++ last_enc l ++ 69 :: params) -> L <= INT_MAX ->
   (List.length (a :: cs) + List.length params + 8 <= F)%nat ->
-  run s 0 F FEncoding (st0 L) = R 0 (NS L (Some (last_out (join_sep (a :: cs)) l)) 0 false).
+  run true s 0 F FEncoding (st0 L) = R 0 (NS L (Some (last_out (join_sep (a :: cs)) l)) 0 false).
 Proof.
   intros a cs l params F Hs Hok Hl Hpar Hnd HL HF.
   set (comps := a :: cs) in *.
@@ -742,7 +741,7 @@ Proof.
   { destruct H0 as [_ [_ HH]]. cbn [List.length] in HH. unfold body in HH.
     repeat rewrite app_length in HH. cbn [List.length] in HH. lia. }
   destruct F as [| F1]; [ lia |]. destruct F1 as [| F2]; [ lia |]. destruct F2 as [| F3]; [ lia |].
-  change (run s 0 (S (S (S F3))) FEncoding) with (dd_encoding s 0 (run s 0 (S (S F3)))).
+  change (run true s 0 (S (S (S F3))) FEncoding) with (dd_encoding s 0 (run true s 0 (S (S F3)))).
   unfold dd_encoding, st0.
   pose proof (At_lt _ _ _ H0) as HL0.
   rewrite bind_eof. stsimpl. rwf (0 >=? L). cbn [Z.eqb].
@@ -752,10 +751,10 @@ Proof.
   erewrite bind_R; [| apply (curr_at _ (78 :: body)); [ exact H2 | reflexivity ] ].
   cbn [hd0]. chs. cbn [Z.eqb Pos.eqb orb].
   (* dd_name -> dd_nested_name *)
-  assert (Hname : run s 0 (S (S F3)) FName (NS 2 None 1 true) =
+  assert (Hname : run true s 0 (S (S F3)) FName (NS 2 None 1 true) =
                   R 0 (NS (2 + 1 + Z.of_nat (List.length (srcs comps)) + Z.of_nat (List.length (last_enc l)) + 1)
                           (Some (last_out (join_sep comps) l)) 1 false)).
-  { change (run s 0 (S (S F3)) FName) with (dd_name s 0 (run s 0 (S F3))).
+  { change (run true s 0 (S (S F3)) FName) with (dd_name true s 0 (run true s 0 (S F3))).
     unfold dd_name. unfold NS at 1.
     erewrite bind_R; [| apply (curr_at _ (78 :: body)); [ exact H2 | reflexivity ] ].
     pose proof (At_lt _ _ _ H2).
@@ -832,7 +831,7 @@ Definition hash_okb (h : list Z) : bool := (Nat.eqb (List.length h) 17) && hash1
 
 Lemma source_name_hash_at : forall p o lv fnm h rest,
   At p (str "17" ++ h ++ rest) -> hash_okb h = true -> L <= INT_MAX ->
-  dd_source_name s 0 (NS p o lv fnm) = R 0 (NS (p + 19) o lv fnm).
+  dd_source_name true s 0 (NS p o lv fnm) = R 0 (NS (p + 19) o lv fnm).
 Proof.
   intros p o lv fnm h rest H Hh HL.
   unfold hash_okb in Hh. apply andb_prop in Hh. destruct Hh as [Hlen Hh]. apply Nat.eqb_eq in Hlen.
@@ -850,7 +849,7 @@ Proof.
   { destruct H as [_ [_ H2]]. rewrite app_length in H2. lia. }
   cbn [Z.ltb Z.compare].
   rewrite bind_eof. stsimpl. rwf (p + 2 >=? L). rewrite bind_gets, bind_gets. stsimpl. cbn [Z.eqb].
-  rwf (p + 2 + 17 >? INT_MAX). rwf (p + 2 + 17 >? L).
+  cbn [negb andb]. rwf (17 >? L - (p + 2)).
   rewrite bind_gets, bind_getb, bind_gets. stsimpl. cbn [Z.eqb negb andb orb Pos.eqb].
   destruct H as [H0 [H1 H2]]. rewrite H1. rewrite hash17_app by exact Hlen. rewrite Hh.
   erewrite bind_R.
@@ -861,7 +860,7 @@ Qed.
 
 Lemma unq_hash : forall k p o lv fnm h rest,
   At p (str "17" ++ h ++ rest) -> hash_okb h = true -> L <= INT_MAX -> hd0 rest <> 66 ->
-  run s 0 (S k) FUnqualifiedName (NS p o lv fnm) = R 0 (NS (p + 19) o lv fnm).
+  run true s 0 (S k) FUnqualifiedName (NS p o lv fnm) = R 0 (NS (p + 19) o lv fnm).
 Proof.
   intros k p o lv fnm h rest H Hh HL HB.
   cbn [run body]. unfold dd_unqualified_name. unfold NS at 1.
@@ -888,7 +887,7 @@ Lemma rust_encoding_at : forall a cs h F,
   Forall (fun id => ident_okb id = true) (a :: cs) -> hash_okb h = true ->
   no_dollar (srcs (a :: cs) ++ str "17" ++ h ++ [69]) -> L <= INT_MAX ->
   (List.length (a :: cs) + 8 <= F)%nat ->
-  run s 0 F FEncoding (st0 L) = R 0 (NS L (Some (join_sep (a :: cs))) 0 false).
+  run true s 0 F FEncoding (st0 L) = R 0 (NS L (Some (join_sep (a :: cs))) 0 false).
 Proof.
   intros a cs h F Hs Hok Hh Hnd HL HF.
   set (comps := a :: cs) in *.
@@ -903,7 +902,7 @@ Proof.
   { destruct H0 as [_ [_ HH]]. cbn [List.length] in HH. unfold body in HH.
     repeat rewrite app_length in HH. cbn [List.length str] in HH. lia. }
   destruct F as [| F1]; [ lia |]. destruct F1 as [| F2]; [ lia |]. destruct F2 as [| F3]; [ lia |].
-  change (run s 0 (S (S (S F3))) FEncoding) with (dd_encoding s 0 (run s 0 (S (S F3)))).
+  change (run true s 0 (S (S (S F3))) FEncoding) with (dd_encoding s 0 (run true s 0 (S (S F3)))).
   unfold dd_encoding, st0.
   pose proof (At_lt _ _ _ H0) as HL0.
   rewrite bind_eof. stsimpl. rwf (0 >=? L). cbn [Z.eqb].
@@ -918,13 +917,13 @@ Proof.
   assert (H4 : At (pe + 19) [69]).
   { apply At_app in H3. apply At_app in H3. rewrite Hhl in H3. cbn [List.length str] in H3.
     replace (pe + Z.of_nat 2 + Z.of_nat 17) with (pe + 19) in H3 by lia. exact H3. }
-  assert (Hname : run s 0 (S (S F3)) FName (NS 2 None 1 true) = R 0 (NS L (Some (join_sep comps)) 1 false)).
-  { change (run s 0 (S (S F3)) FName) with (dd_name s 0 (run s 0 (S F3))).
+  assert (Hname : run true s 0 (S (S F3)) FName (NS 2 None 1 true) = R 0 (NS L (Some (join_sep comps)) 1 false)).
+  { change (run true s 0 (S (S F3)) FName) with (dd_name true s 0 (run true s 0 (S F3))).
     unfold dd_name. unfold NS at 1.
     erewrite bind_R; [| apply (curr_at _ (78 :: body)); [ exact H2 | reflexivity ] ].
     pose proof (At_lt _ _ _ H2).
     rewrite bind_eof. stsimpl. rwf (2 >=? L). cbn [hd0]. chs. cbn [Z.eqb Pos.eqb].
-    change (run s 0 (S F3) FNestedName) with (dd_nested_name s 0 (run s 0 F3)).
+    change (run true s 0 (S F3) FNestedName) with (dd_nested_name s 0 (run true s 0 F3)).
     unfold dd_nested_name.
     rewrite bind_eof. stsimpl. rwf (2 >=? L). cbn [Z.eqb].
     unfold expect at 1. unfold consume.
@@ -936,8 +935,8 @@ Proof.
     2:{ replace F3 with (List.length comps + S (S (S (F3 - List.length comps - 3))))%nat at 1 by (cbn [List.length] in *; lia).
         rewrite (nested_comps comps _ 3 None 2 true (str "17" ++ h ++ [69])); try assumption.
         - unfold comps at 2 3. rewrite out_after_start. cbn [fnm_after]. fold comps. fold pe.
-          change (run s 0 (S (S (S (F3 - List.length comps - 3)))) (LNested 0))
-            with (nested_loop s 0 (run s 0 (S (S (F3 - List.length comps - 3)))) 0).
+          change (run true s 0 (S (S (S (F3 - List.length comps - 3)))) (LNested 0))
+            with (nested_loop true s 0 (run true s 0 (S (S (F3 - List.length comps - 3)))) 0).
           unfold nested_loop. unfold NS at 1. cbn [str app] in H3.
           erewrite bind_R; [| apply (curr_at _ (49 :: 55 :: h ++ [69])); [ exact H3 | reflexivity ] ].
           pose proof (At_lt _ _ _ H3).
@@ -962,7 +961,7 @@ Proof.
     apply (At_app _ [69] []). exact H4. }
   (* the type loop stops at once: end of string *)
   erewrite bind_R.
-  2:{ change (run s 0 (S (S F3)) LEncTypes) with (enc_types_loop s 0 (run s 0 (S F3))).
+  2:{ change (run true s 0 (S (S F3)) LEncTypes) with (enc_types_loop s 0 (run true s 0 (S F3))).
       unfold enc_types_loop, NS. rewrite bind_eof. stsimpl. rwt (L >=? L).
       erewrite bind_R; [| apply (curr_at _ []); [ exact Hend | reflexivity ] ].
       cbn [Z.eqb orb Pos.eqb]. reflexivity. }
@@ -978,7 +977,7 @@ Lemma unscoped_encoding_at : forall id params F,
   s = str "_Z" ++ src id ++ params ->
   ident_okb id = true -> forallb is_builtin params = true -> L <= INT_MAX ->
   (List.length params + 8 <= F)%nat ->
-  run s 0 F FEncoding (st0 L) = R 0 (NS L (Some id) 0 false).
+  run true s 0 F FEncoding (st0 L) = R 0 (NS L (Some id) 0 false).
 Proof.
   intros id params F Hs Hid Hpar HL HF.
   assert (H0 : At 0 (95 :: 90 :: src id ++ params)).
@@ -993,7 +992,7 @@ Proof.
     rewrite <- app_assoc in E. destruct (dec (Z.of_nat (List.length id))); [ contradiction | discriminate ]. }
   cbn [hd0] in Hd.
   destruct F as [| F1]; [ lia |]. destruct F1 as [| F2]; [ lia |]. destruct F2 as [| F3]; [ lia |].
-  change (run s 0 (S (S (S F3))) FEncoding) with (dd_encoding s 0 (run s 0 (S (S F3)))).
+  change (run true s 0 (S (S (S F3))) FEncoding) with (dd_encoding s 0 (run true s 0 (S (S F3)))).
   unfold dd_encoding, st0.
   pose proof (At_lt _ _ _ H0) as HL0.
   rewrite bind_eof. stsimpl. rwf (0 >=? L). cbn [Z.eqb].
@@ -1012,8 +1011,8 @@ Proof.
   destruct HpI as [HpI HpB].
   assert (Hnd : no_dollar (id ++ params)).
   { apply Forall_app. split; [ apply no_dollar_ident; exact Hid | apply no_dollar_params; exact Hpar ]. }
-  assert (Hname : run s 0 (S (S F3)) FName (NS 2 None 1 true) = R 0 (NS pe (Some id) 1 false)).
-  { change (run s 0 (S (S F3)) FName) with (dd_name s 0 (run s 0 (S F3))).
+  assert (Hname : run true s 0 (S (S F3)) FName (NS 2 None 1 true) = R 0 (NS pe (Some id) 1 false)).
+  { change (run true s 0 (S (S F3)) FName) with (dd_name true s 0 (run true s 0 (S F3))).
     unfold dd_name. unfold NS at 1.
     erewrite bind_R; [| apply (curr_at _ (d :: tl)); [ exact H2 | reflexivity ] ].
     pose proof (At_lt _ _ _ H2).
@@ -1047,15 +1046,15 @@ Definition NST (p : Z) (o : option (list Z)) (lv tp : Z) (fnm : bool) : state :=
 
 Lemma type_builtin_T : forall k p o lv tp fnm c rest,
   At p (c :: rest) -> is_builtin c = true ->
-  run s 0 (S (S k)) FType (NST p o lv tp fnm) = R 0 (NST (p + 1) o lv tp fnm).
+  run true s 0 (S (S k)) FType (NST p o lv tp fnm) = R 0 (NST (p + 1) o lv tp fnm).
 Proof.
   intros k p o lv tp fnm c rest H Hb.
   destruct (builtin_facts c Hb) as [F1 [F2 [F3 [F4 [F5 [F6 [F7 [F8 [F9 [F10 [F11 [F12 [F13 F14]]]]]]]]]]]]].
-  change (run s 0 (S (S k)) FType) with (dd_type (run s 0 (S k))).
+  change (run true s 0 (S (S k)) FType) with (dd_type (run true s 0 (S k))).
   unfold dd_type, NST. pose proof (At_lt _ _ _ H).
   rewrite bind_eof. stsimpl. rwf (p >=? L). cbn [Z.eqb].
   unfold inc_typ, inc_level. rewrite !bind_modify. stsimpl.
-  assert (Hl : run s 0 (S k) (LType (-1)) (mkst p L o (0 + 1) (lv + 1) tp false fnm false false)
+  assert (Hl : run true s 0 (S k) (LType (-1)) (mkst p L o (0 + 1) (lv + 1) tp false fnm false false)
                = R 0 (mkst (p + 1) L o (0 + 1) (lv + 1) tp false fnm false false)).
   { cbn [run body]. unfold type_loop.
     rewrite bind_eof. stsimpl. rwf (p >=? L). cbn [Z.eqb].
@@ -1077,11 +1076,11 @@ Qed.
 
 Lemma template_arg_builtin : forall k p o lv tp fnm c rest, (3 <= k)%nat ->
   At p (c :: rest) -> is_builtin c = true ->
-  run s 0 k FTemplateArg (NST p o lv tp fnm) = R 0 (NST (p + 1) o lv tp fnm).
+  run true s 0 k FTemplateArg (NST p o lv tp fnm) = R 0 (NST (p + 1) o lv tp fnm).
 Proof.
   intros k p o lv tp fnm c rest Hk H Hb.
   destruct k as [| [| [| k]]]; try lia.
-  change (run s 0 (S (S (S k))) FTemplateArg) with (dd_template_arg s 0 (run s 0 (S (S k)))).
+  change (run true s 0 (S (S (S k))) FTemplateArg) with (dd_template_arg s 0 (run true s 0 (S (S k)))).
   unfold dd_template_arg. unfold NST at 1. pose proof (builtin_lower c Hb) as Hlow. pose proof (At_lt _ _ _ H).
   erewrite bind_R; [| apply (curr_at _ (c :: rest)); [ exact H | reflexivity ] ].
   rewrite bind_eof. stsimpl. rwf (p >=? L). cbn [hd0]. chs. cbn [Z.eqb].
@@ -1093,7 +1092,7 @@ Qed.
 
 Lemma until_targs : forall targs k p o lv tp fnm rest, (List.length targs + 4 <= k)%nat ->
   At p (targs ++ 69 :: rest) -> forallb is_builtin targs = true ->
-  run s 0 k (LUntilE FTemplateArg) (NST p o lv tp fnm) = R 0 (NST (p + Z.of_nat (List.length targs)) o lv tp fnm).
+  run true s 0 k (LUntilE FTemplateArg) (NST p o lv tp fnm) = R 0 (NST (p + Z.of_nat (List.length targs)) o lv tp fnm).
 Proof.
   induction targs as [| c ts IH]; intros k p o lv tp fnm rest Hk H Hb.
   - destruct k as [| k]; [ cbn [List.length] in Hk; lia |].
@@ -1116,11 +1115,11 @@ Qed.
 (* I <builtin type>* E *)
 Lemma template_args_at : forall targs k p o lv fnm rest, (List.length targs + 5 <= k)%nat ->
   At p (73 :: targs ++ 69 :: rest) -> forallb is_builtin targs = true ->
-  run s 0 k FTemplateArgs (NS p o lv fnm) = R 0 (NS (p + Z.of_nat (List.length targs) + 2) o lv fnm).
+  run true s 0 k FTemplateArgs (NS p o lv fnm) = R 0 (NS (p + Z.of_nat (List.length targs) + 2) o lv fnm).
 Proof.
   intros targs k p o lv fnm rest Hk H Hb.
   destruct k as [| k]; [ lia |].
-  change (run s 0 (S k) FTemplateArgs) with (dd_template_args s 0 (run s 0 k)).
+  change (run true s 0 (S k) FTemplateArgs) with (dd_template_args s 0 (run true s 0 k)).
   unfold dd_template_args. unfold NS at 1. pose proof (At_lt _ _ _ H).
   rewrite bind_eof. stsimpl. rwf (p >=? L). cbn [Z.eqb].
   unfold expect at 1. unfold consume.
@@ -1153,7 +1152,7 @@ Lemma nested_tcomps : forall comps l k p o lv fnm rest x,
   no_dollar (tsrcs comps ++ last_enc l ++ 69 :: rest) -> L <= INT_MAX ->
   out_after o fnm (map fst comps) = Some x -> fnm_after fnm (map fst comps) = false ->
   (tcosts comps + 3 <= k)%nat ->
-  run s 0 k (LNested 0) (NS p o lv fnm) =
+  run true s 0 k (LNested 0) (NS p o lv fnm) =
   R 0 (NS (p + Z.of_nat (List.length (tsrcs comps)) + Z.of_nat (List.length (last_enc l))) (Some (last_out x l)) lv false).
 Proof.
   induction comps as [| [id targs] cs IH]; intros l k p o lv fnm rest x H Hok Hl Hnd HL Hout Hfnm Hk.
@@ -1213,7 +1212,7 @@ Proof.
       cbn [tcost snd] in Hk. set (targs := t0 :: ts) in *.
       assert (Hte : targs_enc targs = 73 :: targs ++ [69]) by reflexivity.
       rewrite Hte in *. 
-      change (run s 0 (S k2) (LNested 0)) with (nested_loop s 0 (run s 0 k2) 0).
+      change (run true s 0 (S k2) (LNested 0)) with (nested_loop true s 0 (run true s 0 k2) 0).
       unfold nested_loop. unfold NS at 1.
       set (p1 := p + Z.of_nat (List.length (src id))) in *.
       assert (H' : At p1 (73 :: (targs ++ 69 :: tail))).
@@ -1241,13 +1240,13 @@ Qed.
 (* ---- dd_encoding around any name that is followed by builtin types up to the end of the string *)
 Lemma encoding_generic : forall c0 tl x pe params F3,
   At 0 (95 :: 90 :: c0 :: tl) -> c0 <> 84 -> c0 <> 71 ->
-  run s 0 (S (S F3)) FName (NS 2 None 1 true) = R 0 (NS pe (Some x) 1 false) ->
+  run true s 0 (S (S F3)) FName (NS 2 None 1 true) = R 0 (NS pe (Some x) 1 false) ->
   At pe params -> forallb is_builtin params = true -> (List.length params + 1 <= F3)%nat ->
-  run s 0 (S (S (S F3))) FEncoding (st0 L) = R 0 (NS L (Some x) 0 false).
+  run true s 0 (S (S (S F3))) FEncoding (st0 L) = R 0 (NS L (Some x) 0 false).
 Proof.
   intros c0 tl x pe params F3 H0 HcT HcG Hname Hpe Hpar HF.
   pose proof (At_cons _ _ _ H0) as H1. pose proof (At_cons _ _ _ H1) as H2. cbn [Z.add Pos.add] in H1, H2.
-  change (run s 0 (S (S (S F3))) FEncoding) with (dd_encoding s 0 (run s 0 (S (S F3)))).
+  change (run true s 0 (S (S (S F3))) FEncoding) with (dd_encoding s 0 (run true s 0 (S (S F3)))).
   unfold dd_encoding, st0.
   pose proof (At_lt _ _ _ H0) as HL0.
   rewrite bind_eof. stsimpl. rwf (0 >=? L). cbn [Z.eqb].
@@ -1279,7 +1278,7 @@ Lemma tencoding_at : forall c cs l params F,
   forallb tcomp_okb (c :: cs) = true -> last_okb l = true -> forallb is_builtin params = true ->
   no_dollar (tsrcs (c :: cs) ++ last_enc l ++ 69 :: params) -> L <= INT_MAX ->
   (tcosts (c :: cs) + List.length params + 10 <= F)%nat ->
-  run s 0 F FEncoding (st0 L) = R 0 (NS L (Some (last_out (join_sep (map fst (c :: cs))) l)) 0 false).
+  run true s 0 F FEncoding (st0 L) = R 0 (NS L (Some (last_out (join_sep (map fst (c :: cs))) l)) 0 false).
 Proof.
   intros c cs l params F Hs Hok Hl Hpar Hnd HL HF.
   set (comps := c :: cs) in *.
@@ -1296,12 +1295,12 @@ Proof.
     apply (At_app _ [69] params). apply (At_app _ (last_enc l)). apply (At_app _ (tsrcs comps)).
     apply At_cons in H2. exact H2. }
   apply (encoding_generic 78 body (last_out (join_sep (map fst comps)) l) pe params F3 H0); try lia; try assumption.
-  change (run s 0 (S (S F3)) FName) with (dd_name s 0 (run s 0 (S F3))).
+  change (run true s 0 (S (S F3)) FName) with (dd_name true s 0 (run true s 0 (S F3))).
   unfold dd_name. unfold NS at 1.
   erewrite bind_R; [| apply (curr_at _ (78 :: body)); [ exact H2 | reflexivity ] ].
   pose proof (At_lt _ _ _ H2).
   rewrite bind_eof. stsimpl. rwf (2 >=? L). cbn [hd0]. chs. cbn [Z.eqb Pos.eqb].
-  change (run s 0 (S F3) FNestedName) with (dd_nested_name s 0 (run s 0 F3)).
+  change (run true s 0 (S F3) FNestedName) with (dd_nested_name s 0 (run true s 0 F3)).
   unfold dd_nested_name.
   rewrite bind_eof. stsimpl. rwf (2 >=? L). cbn [Z.eqb].
   unfold expect at 1. unfold consume.
@@ -1464,7 +1463,7 @@ Proof. vm_compute. repeat split; reflexivity. Qed.
 (* ================================================================ Rust legacy names and unscoped names *)
 Lemma demangle_of_encoding : forall s o,
   prefix_of prefix_str s = false -> mangled_form s = true ->
-  run s 0 (fuel_of s) FEncoding (st0 (flen s)) = R 0 (NS s (flen s) (Some o) 0 false) ->
+  run true s 0 (fuel_of s) FEncoding (st0 (flen s)) = R 0 (NS s (flen s) (Some o) 0 false) ->
   demangle s = Str o.
 Proof.
   intros s o Hpre Hm E. unfold demangle, demangle_fuel. rewrite Hm, Hpre. cbn [negb].
